@@ -87,6 +87,16 @@ Theorem C15_sched_nonneg_refuted :
               EstUpdateWitness.some_negative ns' = true.
 Proof. split; [exact EstUpdateWitness.witness_input_ok|exact EstUpdateWitness.update_times_negative_sched_witness]. Qed.
 
+(* known finding C15/2 at the level of the model of the passes: innocent inputs (a start node with two origin branches, the
+   alternate one faster; departure at 600 s), accepted by both passes, and the alternate node stays scheduled later than
+   its split node by far more than rounding - the clause "no node is scheduled later than any predecessor allows" is
+   FALSE of the faithful model, as it is of the code (bit-identical output of the real passes on this array) *)
+Theorem C15_no_later_than_predecessor_refuted :
+  EstUpdateWitness.w2_inputs_innocent = true /\
+  exists ns', update_times 78 EstUpdateWitness.w2_nodes EstUpdateWitness.w2_set EstUpdateWitness.w2_t0 = Ok ns' /\
+              EstUpdateWitness.alt_later_than_split ns' = true.
+Proof. split; [exact EstUpdateWitness.witness2_input_ok|exact EstUpdateWitness.update_times_alt_later_witness]. Qed.
+
 (* the priority queues of the model are max-heap pops under the code's own orderings (total orders over R, OrdP.v):
    the element removed is a maximum and nothing else is lost *)
 Theorem C15_queues_are_heap_pops :
